@@ -1,0 +1,5 @@
+// Package verifhook provides named yield points for runtime-verification
+// harnesses. Without the `verif` build tag every function is an empty,
+// inlinable no-op; with the tag a harness may install a handler that is called
+// at each point (to record the event or to hold the calling goroutine there).
+package verifhook
